@@ -709,6 +709,21 @@ func genParseCases(tier string, emit func(op string, fields ...string)) {
 	for i := 0; i < nCorrupt/4; i++ {
 		emit("PARSE", hexs(randomLexSource(10)))
 	}
+	// line/column computation at every position of multi-line sources with tabs and non-ASCII (C10)
+	for i := 0; i < nValid/20; i++ {
+		src := genProgram(nil, 1+rng.Intn(2), true)
+		if i%3 == 0 {
+			src = strings.ReplaceAll(src, " ", "\t")
+		}
+		for _, pos := range []int{0, len(src), rng.Intn(len(src) + 1), rng.Intn(len(src) + 1)} {
+			emit("LINECOL", hexs(src), strconv.Itoa(pos))
+		}
+	}
+	for _, s := range []string{"", "\n", "a\tb\n\tc", "é\n日本\t|", "\t\t\t", "\xff\n\xfe", "a\r\nb"} {
+		for pos := 0; pos <= len(s); pos++ {
+			emit("LINECOL", hexs(s), strconv.Itoa(pos))
+		}
+	}
 	// pathological nesting (C12)
 	for _, n := range []int{10, 100, 1000, 3000} {
 		if tier != "thorough" && n > 1000 {
